@@ -20,9 +20,21 @@ TRUSTED_BASE = [
 UNMODELLED = ['binary64 rounding of non-integer clock readings', 'thread interleavings on a shared watch']
 ASSUMPTIONS = ['timeutils.now is the only clock the watch reads (checked: the scripted clock counts its reads)']
 
-BASE_OPS = ['start', 'stop', 'resume', 'restart', 'split', 'elapsed:N', 'elapsed:7', 'leftover:0',
+BASE_OPS = ['start', 'stop', 'resume', 'restart', 'split', 'elapsed:N', 'elapsed:7', 'elapsed:0', 'leftover:0',
             'leftover:1', 'expired', 'splits']
-ALL_OPS = BASE_OPS + ['has_started', 'has_stopped', 'enter', 'exit', 'elapsed:0', 'elapsed:-3', 'elapsed:1000']
+# `exit:T` leaves the context manager with an exception of type T in flight (the with-statement
+# protocol: __exit__(type, value, traceback)); the watch must be stopped whatever the exception
+EXIT_KINDS = ['KeyboardInterrupt', 'SystemExit', 'GeneratorExit', 'ValueError', 'RuntimeError', 'BaseX']
+ALL_OPS = BASE_OPS + ['has_started', 'has_stopped', 'enter', 'exit', 'elapsed:-3', 'elapsed:1000', 'elapsed:-0'] \
+    + ['exit:' + k for k in EXIT_KINDS]
+
+
+class BaseX(BaseException):
+    pass
+
+
+def exc_class(name):
+    return BaseX if name == 'BaseX' else getattr(__import__('builtins'), name)
 DURATIONS = [None, 0, 5, 10 ** 6]
 
 
@@ -68,7 +80,7 @@ def impl_state(w, clock):
 def call(w, op):
     name, _, arg = op.partition(':')
     if name == 'elapsed':
-        return w.elapsed(None if arg == 'N' else int(arg))
+        return w.elapsed(None if arg == 'N' else (-0.0 if arg == '-0' else int(arg)))
     if name == 'leftover':
         return w.leftover(return_none=(arg == '1'))
     if name == 'splits':
@@ -76,7 +88,15 @@ def call(w, op):
     if name == 'enter':
         return w.__enter__()
     if name == 'exit':
-        return w.__exit__(None, None, None)
+        if not arg:
+            r = w.__exit__(None, None, None)
+        else:
+            try:
+                raise exc_class(arg)('in the with block')
+            except BaseException as e:
+                r = w.__exit__(type(e), e, e.__traceback__)
+        # the property says nothing about the value; only whether the exception would be swallowed
+        return 'swallowed' if r else None
     return getattr(w, name)()
 
 
@@ -105,6 +125,8 @@ def run_impl(duration, clock_list, ops):
                     o = 'self'
                 elif r is None:
                     o = 'none'
+                elif r == 'swallowed':
+                    o = 'swallowed'
                 elif isinstance(r, bool):
                     o = 'bool:%d' % r
                 elif isinstance(r, timeutils.Split):
@@ -115,15 +137,19 @@ def run_impl(duration, clock_list, ops):
                     o = 'num:' + fmt_num(r)
             outs.append(o)
             after = (w._state, w._started_at, w._stopped_at, w._splits, w._duration)
-            trace.append((op, r, before, after, clock_list[i0:clock.i]))
+            # the reads the call made; if it made none, the value it would have read (a call may answer
+            # without the clock where the answer does not depend on it)
+            reads = clock_list[i0:clock.i] or [clock_list[min(i0, len(clock_list) - 1)]]
+            trace.append((op, r, before, after, reads, clock.i - i0))
         return outs, impl_state(w, clock), trace
     finally:
         timeutils.now = saved
 
 
 def case_line(duration, clock_list, ops):
+    model_ops = ['exit' if o.startswith('exit:') else ('elapsed:0' if o == 'elapsed:-0' else o) for o in ops]
     return req('run', 'N' if duration is None else duration,
-               ','.join(map(str, clock_list)) or '-', ','.join(ops) or '-')
+               ','.join(map(str, clock_list)) or '-', ','.join(model_ops) or '-')
 
 
 def gen_cases(ctx):
@@ -180,7 +206,7 @@ def oracle(duration, clock_list, ops):
     outs, st, trace = run_impl(duration, clock_list, ops)
     last_start = None       # clock reading taken by the last effective (re)start
     stop_at = None
-    for k, (op, r, before, after, reads) in enumerate(trace):
+    for k, (op, r, before, after, reads, nreads) in enumerate(trace):
         name = op.partition(':')[0]
         state0, state1 = before[0], after[0]
         if isinstance(r, Exception):
@@ -199,7 +225,11 @@ def oracle(duration, clock_list, ops):
                    'leftover': state0 != 'STARTED' or (duration is None and op.endswith(':0'))}
         if illegal.get(name, False):
             return 'call %d (%s) is illegal in state %s but returned' % (k, op, state0)
-        if name in ('start', 'enter', 'restart') and reads:
+        if r == 'swallowed':
+            return 'call %d (%s): __exit__ returned a true value (the exception would be swallowed)' % (k, op)
+        if name == 'exit' and state1 == 'STARTED':
+            return 'call %d (%s): the watch is still running after leaving the with block' % (k, op)
+        if name in ('start', 'enter', 'restart') and nreads:
             last_start = reads[-1]
             stop_at = None
             if after[3] != ():
